@@ -14,7 +14,7 @@ import (
 // grouping, polarity, operator, evaluation order and short-circuiting are all
 // compared against the generator's own expression tree.
 
-const numCondPositions = 7
+const numCondPositions = 10
 
 // condProgram places cond in condition position pos.
 func condProgram(cond *model.Cond, pos int) *model.Script {
@@ -37,6 +37,12 @@ func condProgram(cond *model.Cond, pos int) *model.Script {
 		st = model.Stmt{Kind: model.SIf, Arms: []model.Arm{{Cond: guard(1), Body: []model.Stmt{cmd("g1")}}, {Cond: guard(2), Body: []model.Stmt{cmd("g2")}}, {Cond: cond, Body: []model.Stmt{cmd("t")}}}, HasElse: true, Else: []model.Stmt{cmd("f")}}
 	case 5: // while
 		st = model.Stmt{Kind: model.SWhile, Cond: cond, Body: []model.Stmt{cmd("t")}}
+	case 7: // middle elif with an empty body, no else: the condition still guards the later elif
+		st = model.Stmt{Kind: model.SIf, Arms: []model.Arm{{Cond: guard(1), Body: []model.Stmt{cmd("g1")}}, {Cond: cond, Body: nil}, {Cond: guard(2), Body: []model.Stmt{cmd("g2")}}}}
+	case 8: // if with an empty body, then elif
+		st = model.Stmt{Kind: model.SIf, Arms: []model.Arm{{Cond: cond, Body: nil}, {Cond: guard(1), Body: []model.Stmt{cmd("g1")}}}}
+	case 9: // last elif with an empty body, with else
+		st = model.Stmt{Kind: model.SIf, Arms: []model.Arm{{Cond: guard(1), Body: []model.Stmt{cmd("g1")}}, {Cond: cond, Body: nil}}, HasElse: true, Else: []model.Stmt{cmd("f")}}
 	default: // do ... while
 		st = model.Stmt{Kind: model.SDoWhile, Cond: cond, Body: []model.Stmt{cmd("t")}}
 	}
@@ -221,7 +227,7 @@ func runC02(tier string) int {
 	r.Assume("the generator's own expression tree is the reference (no parsing on the oracle side); '!' > '&&' > '||', left to right, short-circuit",
 		"lockstep: each operand read (which flag/var/trainer, strict or not) is an observable event; the environment answers with the operand's value and each side applies its own relation")
 	return r.Finish(r.Get("evaluations"), r.Get("nontrivial"),
-		"every And/Or tree with k leaves x decorations (redundant parentheses / negations on any node, bounded count) x leaf-form assignments (all 30 forms exhaustively for k<=2, rotations beyond, shared-operand variants for k<=3) x 7 condition positions x optimize on/off; each case explored in lockstep over all operand values; non-trivial = at least 2 leaves")
+		"every And/Or tree with k leaves x decorations (redundant parentheses / negations on any node, bounded count) x leaf-form assignments (all 30 forms exhaustively for k<=2, rotations beyond, shared-operand variants for k<=3) x 10 condition positions (if, if/else, elif positions, while, do...while, and branches with an empty body) x optimize on/off; each case explored in lockstep over all operand values; non-trivial = at least 2 leaves")
 }
 
 func sharedLeaf(form, i int) *model.Leaf {
